@@ -33,6 +33,21 @@ CHECKS = {
     note="Trusted: Coq kernel + vm_compute; harness (images produced by truncating the file the real session wrote = the property's "
          "crash model: an in-order prefix of the byte stream). fsync / reordering below the page cache are outside the model. No axioms.",
     ref="7/C03, 12.1"),
+ "C05": dict(
+  technique="Coq proof (invariant + frame/refinement relation by induction over all edit histories) on a hand model, tied to /repo by differential correspondence evaluated by the kernel (tie H) + Python oracle",
+  text="Props/C05.v: Inv (one row and one numeric charge per atom, no duplicates, parents, bond endpoints in the molecule) holds for empty/loaded/cloned states (C05_inv_init_*), is preserved by every operation whether it returns or raises (C05_inv_step) hence by every history (C05_inv_history); every surviving atom keeps its coordinate row and charge (C05_keeps_step/_history, C05_new_atom_row, C05_idx_correct); del_atom removes exactly the atom and its incident bonds (C05_del_exact); failed atomic operations and remove_substituent change nothing (C05_err_unchanged_*partial). Every run drives random (len<=40) and bounded-exhaustive histories through the real Molecule/Structure API, observes all accessors keyed by object identity after every step and has Coq replay them in the model (check_case, vm_compute; C05_check_case_sound).",
+  note="Trusted: Coq kernel + vm_compute; harness/c05.py (driver, id()->name renaming, token maps, literal emission); CPython/numpy. Modelled not verified: np.append/np.delete as list append/delete-nth; add_implicit_hydrogens only structurally (count/geometry: C16); BFS fuel sufficiency not proved (OutOfFuel excluded, would fail a shard). Partial: err_unchanged is false in the code for remove_substituent(a,a) on a self-loop and multi-target add_implicit_hydrogens. Views: edits are not defined on Conformer/Substructure (oracle scenarios only). Known finding: foreign atom in append_bond. No axioms.",
+  ref="7/C05"),
+ "C11": dict(
+   technique="Coq proofs over R (nsatz/ring) about one field-parametric Gallina model + differential correspondence of the same model run over Q inside Coq against exact-rational observations of the implementation",
+   text="Props/C11.v: rotation_matrix_from_vectors (general AND antiparallel branch, for every unit vector orthogonal to v2) and rotation_matrix_from_axis are proper rotations with the documented effect (maps v1/|v1| to v2/|v2|; fixes the axis, trace 1+2cos, sense of turn); orthogonal maps keep dot products, proper ones every pairwise distance and signed volume (transform/translate/rotate/center_*); substructure edits move exactly the selected rows; rotate_dihedral leaves arctan2's arguments at rho(sin t, cos t), rho>0, moves only the far side rigidly; align_to_ref_coords returns the deviation of the pose it leaves, minimal over mappings, and is pose-independent (under the stated callback contract). Tie: ~1000 (quick) / ~9400 (thorough) exact-rational cases incl. b=-a+eps on both sides of tol, angles 0/pi, axis-aligned vectors, every rotatable acyclic bond of bundled molecules, checked by vm_compute within 1e-9.",
+   note="Trusted: Coq kernel+vm_compute; harness/c11.py (float->exact rational, 2^-60 sqrt witnesses re-checked in Coq, recording wrappers); numpy/IEEE rounding only tolerance-checked; np.random choice in the antiparallel branch is hidden state (theorem covers any choice, C12 for determinism); alignment callback (SVD) is a hypothesis; arctan2 and yield_bfs's atom selection are parameters. Axioms: sig_forall_dec, functional_extensionality_dep (stdlib Reals). Partial for rounding.",
+   ref="7/C11"),
+ "C15": dict(
+  technique="Coq proofs by induction/invariant over executable models of the graph queries (tie H: exhaustive small-graph + random differential correspondence evaluated by vm_compute) + regenerated predicate tables (tie T)",
+  text="Props/C15.v: for EVERY bond list and start, yield_bfsd terminates within the model's fuel and yields exactly the component minus the start, once each, with shortest-path labels, non-decreasing (C15_bfs_total, C15_bfs_sound_complete); with a direction exactly the atoms reachable in the graph without the start (C15_bfs_directed); is_bond_in_ring = true <-> endpoints still connected after deleting the bond (C15_ring_iff_not_bridge); accessors = folds over the bond list (C15_adjacency_agrees, C15_handshake); the reference enumerator returns exactly the induced embeddings, none twice (C15_match_reference_partial, C15_match_plain). _node_match/_edge_match/Bond.order are re-tabulated from /repo each run and proved equal to the model predicates on the whole grid. The exact yielded sequences for all labelled graphs on <=5 atoms (thorough <=6), every start/direction/bond, random graphs <=40 atoms, and molli's match output vs the enumerator are compared inside Coq.",
+  note="PARTIAL for matching: networkx VF2 is not modelled; molli's match output is tied to the proved enumerator only differentially. Trusted: Coq kernel+vm_compute, harness/c15.py (driver, canonicalisation, T-emitter), CPython, networkx. Grid completeness of the predicate tables is an assumption (predicates only compare values with each other/constants). Known finding C15:match:raises-NotImplementedError. No axioms.",
+  ref="7/C15"),
 }
 
 PENDING = {
